@@ -2,8 +2,10 @@ package rules
 
 import (
 	"fmt"
+	"go/token"
 	"go/types"
 	"sort"
+	"strconv"
 	"strings"
 
 	"golang.org/x/tools/go/ssa"
@@ -14,7 +16,7 @@ import (
 func init() { Registry["C11"] = checkC11 }
 
 func checkC11(p *core.Prog, r *core.Report) {
-	r.Explanation = "Decides structural necessary conditions of ack-required locks: (R1) DoAckLock(lock, true) is called only from the two ack counters, each call on a path that saw a positive result, a still-pending hold, the decrement of its ack count and the count reaching zero, all tested under the ack table's mutex; any other call passes constant false; (R2) on the ack-pending arms of Lock / wakeUpWaitLock (require-ack flag, not yet persisted, persistable) the request is never answered SUCCED; (R3) every mutation of a hold found by LockId in Lock/UnLock follows the test ackCount == 0xff (not pending); (R4) DoAckLock's failure arm undoes the value (when the request carried one), logs the release of a persisted hold, removes the hold, answers RESULT_ERROR after the mutex and wakes waiters, in that order; in every function, the pending test (ackCount) of a hold is never evaluated after RemoveLock reset it; (R5) every failure source reaches the failure arm: AofFile.Flush acknowledges success only after both the record and the value write and negatively on every error return; AofChannel.HandleLock, the ack table's push/unlock/demotion/flush paths call DoAckLock(false); (R6) UpdateDBAckCount computes len(followers)+1 (all) or (len+1)/2+1 (majority). (R7) every publication of a new ack table is followed, before the manager mutex is released, by the recount that gives it the real acknowledgement requirement. (R8) on the ack-pending path of wakeUpWaitLock the queued request's timeout stays armed (it is the only bound on the wait for acknowledgements). (R9) ProcessLeaderPushLock tracks or fails a pending ack request on every return; (R10) the rollback (ProcessRecoverLockData) clears the logged mark of every existing value object it puts back as the current value, so the compensating UNLOCK record carries it. NOT decided: run-time ordering between flush, follower acks and reply; lost-ack behaviour."
+	r.Explanation = "Decides structural necessary conditions of ack-required locks: (R1) DoAckLock(lock, true) is called only from the two ack counters, each call on a path that saw a positive result, a still-pending hold, the decrement of its ack count and the count reaching zero, all tested under the ack table's mutex; any other call passes constant false; (R2) on the ack-pending arms of Lock / wakeUpWaitLock (require-ack flag, not yet persisted, persistable) the request is never answered SUCCED; (R3) every mutation of a hold found by LockId in Lock/UnLock follows the test ackCount == 0xff (not pending); (R4) DoAckLock's failure arm undoes the value (when the request carried one), logs the release of a persisted hold, removes the hold, answers RESULT_ERROR after the mutex and wakes waiters, in that order; in every function, the pending test (ackCount) of a hold is never evaluated after RemoveLock reset it; (R5) every failure source reaches the failure arm: AofFile.Flush acknowledges success only after both the record and the value write and negatively on every error return; AofChannel.HandleLock, the ack table's push/unlock/demotion/flush paths call DoAckLock(false); (R6) UpdateDBAckCount computes len(followers)+1 (all) or (len+1)/2+1 (majority). (R7) every publication of a new ack table is followed, before the manager mutex is released, by the recount that gives it the real acknowledgement requirement. (R8) on the ack-pending path of wakeUpWaitLock the queued request's timeout stays armed (it is the only bound on the wait for acknowledgements). (R9) ProcessLeaderPushLock tracks or fails a pending ack request on every return; (R10) the rollback (ProcessRecoverLockData) clears the logged mark of every existing value object it puts back as the current value, so the compensating UNLOCK record carries it. (R11) a recycled ack entry has its handshake flags cleared. (R12) while the leader's flush and the followers' acknowledgements count down one counter, the required count of every non-arbiter ack mode exceeds the number of followers (it does not in majority mode with two or more followers: known finding). NOT decided: run-time ordering between flush, follower acks and reply; lost-ack behaviour."
 	r.Assumptions = []string{"Go type checker and go/ssa are correct for /repo", "the ack table mutex (ackGlocks) serialises the two counters (checked for ackCount stores in C01-R3)"}
 	c11R1(p, r)
 	c11R2(p, r)
@@ -27,6 +29,7 @@ func checkC11(p *core.Prog, r *core.Report) {
 	c11R9(p, r)
 	c11R10(p, r)
 	c11R11(p, r)
+	c11R12(p, r)
 }
 
 func c11R1(p *core.Prog, r *core.Report) {
@@ -939,4 +942,163 @@ func c11R11(p *core.Prog, r *core.Report) {
 	}
 	sort.Strings(fs)
 	r.Violate(rule, key, p.Pos(get.Pos()), "a recycled ack record is handed out with "+strings.Join(fs, ", ")+" still set from its previous use: the follower acknowledges the next ack-required record to the leader after only one half of the handshake (e.g. applied but not yet in the follower's own log), so the leader counts an acknowledgement for a record a follower crash would lose", tr)
+}
+
+// c11R12: "SUCCED only after its record has been written to the leader's own
+// log AND acknowledged by the configured number of followers". The leader's
+// flush (ProcessLeaderAofed) and every follower acknowledgement
+// (ProcessLeaderAcked) count down the same per-request counter, so the
+// leader's own write is necessary exactly when the required count exceeds the
+// number of followers: with a required count <= n, n follower
+// acknowledgements reach zero before the leader has flushed.
+func c11R12(p *core.Prog, r *core.Report) {
+	const rule = "C11/R12"
+	r.Rule(rule, "while the leader's flush and the followers' acknowledgements count down one counter, the required count of every (non-arbiter) ack mode exceeds the number of followers for 1..8 followers", 2)
+	fn := mustFunc(p, r, "server.(*ReplicationManager).UpdateDBAckCount")
+	acked := mustFunc(p, r, "server.(*ReplicationAckDB).ProcessLeaderAcked")
+	aofed := mustFunc(p, r, "server.(*ReplicationAckDB).ProcessLeaderAofed")
+	if fn == nil || acked == nil || aofed == nil {
+		return
+	}
+	// one shared counter?
+	decrements := func(f *ssa.Function) bool {
+		for _, b := range f.Blocks {
+			for _, ins := range b.Instrs {
+				st, ok := ins.(*ssa.Store)
+				if !ok {
+					continue
+				}
+				if k, ok := storeKey(st.Addr); !ok || k != fk("server.Lock", "ackCount") {
+					continue
+				}
+				if bo, ok := st.Val.(*ssa.BinOp); ok && bo.Op == token.SUB {
+					return true
+				}
+			}
+		}
+		return false
+	}
+	shared := decrements(acked) && decrements(aofed)
+	self := fn.Params[0].Name()
+	nExpr := "len(" + self + ".serverChannels)"
+	ex := core.NewExplorer(p, core.Hooks{
+		ResolvePhi: func(phi *ssa.Phi) bool {
+			b, ok := phi.Type().Underlying().(*types.Basic)
+			return ok && b.Info()&types.IsInteger != 0
+		},
+		Track: func(x *core.X, a core.Atom) bool {
+			return strings.Contains(a.L, "AofAckMode") || strings.Contains(a.L, "arbiterManager")
+		},
+		Instr: func(x *core.X) {
+			st, ok := x.Ins.(*ssa.Store)
+			if !ok {
+				return
+			}
+			k, ok := storeKey(st.Addr)
+			if !ok || k != fk("server.ReplicationAckDB", "ackCount") {
+				return
+			}
+			if !x.Passed(self + ".slock.arbiterManager == nil") {
+				return // arbiter deployments count voters, not followers
+			}
+			v := core.Plain(x.Canon(st.Val).S)
+			v = strings.TrimSuffix(strings.TrimPrefix(v, "uint8("), ")")
+			mode := "all"
+			for h := range x.St.Hist {
+				if strings.Contains(h, "AofAckMode == 1") {
+					mode = "majority"
+				}
+			}
+			key := "server.(*ReplicationManager).UpdateDBAckCount: " + mode + " mode needs the leader's own write"
+			if !shared {
+				r.Hold(rule, key, x.Pos(), "the leader's flush and the followers' acknowledgements are not counted by one counter")
+				return
+			}
+			bad := -1
+			for n := 1; n <= 8; n++ {
+				val, ok := evalIntExpr(strings.ReplaceAll(v, nExpr, strconv.Itoa(n)))
+				if !ok {
+					r.Violate(rule, key, x.Pos(), "required count "+v+" is not an integer expression of the number of followers", x.St.Trace)
+					return
+				}
+				if val <= int64(n) && bad < 0 {
+					bad = n
+				}
+			}
+			if bad >= 0 {
+				r.Violate(rule, key, x.Pos(), fmt.Sprintf("required count %s is not larger than the number of followers for n = %d: the followers' acknowledgements alone bring the shared counter to zero and the requester gets SUCCED while the record is still in the leader's write buffer (a leader crash loses a lock it reported as written to its own log)", v, bad), x.St.Trace)
+			} else {
+				r.Hold(rule, key, x.Pos(), "required count "+v+" > n for n = 1..8")
+			}
+		},
+	})
+	ex.Run(fn, nil)
+}
+
+// evalIntExpr evaluates a canonical integer expression of constants with
+// + - * / and parentheses.
+func evalIntExpr(s string) (int64, bool) {
+	pos := 0
+	skip := func() {
+		for pos < len(s) && s[pos] == ' ' {
+			pos++
+		}
+	}
+	var expr func() (int64, bool)
+	atom := func() (int64, bool) {
+		skip()
+		if pos < len(s) && s[pos] == '(' {
+			pos++
+			v, ok := expr()
+			skip()
+			if !ok || pos >= len(s) || s[pos] != ')' {
+				return 0, false
+			}
+			pos++
+			return v, true
+		}
+		st := pos
+		for pos < len(s) && s[pos] >= '0' && s[pos] <= '9' {
+			pos++
+		}
+		if st == pos {
+			return 0, false
+		}
+		v, err := strconv.ParseInt(s[st:pos], 10, 64)
+		return v, err == nil
+	}
+	expr = func() (int64, bool) {
+		v, ok := atom()
+		if !ok {
+			return 0, false
+		}
+		for {
+			skip()
+			if pos >= len(s) || strings.IndexByte("+-*/", s[pos]) < 0 {
+				return v, true
+			}
+			op := s[pos]
+			pos++
+			w, ok := atom()
+			if !ok {
+				return 0, false
+			}
+			switch op {
+			case '+':
+				v += w
+			case '-':
+				v -= w
+			case '*':
+				v *= w
+			case '/':
+				if w == 0 {
+					return 0, false
+				}
+				v /= w
+			}
+		}
+	}
+	v, ok := expr()
+	skip()
+	return v, ok && pos == len(s)
 }
